@@ -6,14 +6,14 @@
 (* stdin = FILE, exit status 0 iff assembly and the requested output succeeded.*)
 EXTENDS AsmMech, Json, IOUtils, TLC, SequencesExt
 
-\* a flag vector; long mode flags are not combined with short ones nor with conflicting long ones (their order of application
+\* a flag vector (out = "olong": -o with a name of 150 characters); long mode flags are not combined with short ones nor with conflicting long ones (their order of application
 \* is undocumented); two short flags (-n -t -s) are: each calls asm_set_all when it is met, so the later one wins
 FlagVectors ==
   { f \in [ mov : {"", "nasm", "strict", "smart"}, sib : {"", "nasm", "strict"}, swap : {"", "nasm", "strict"},
             nobase : {"", "nasm", "strict"}, short : {"", "n", "t", "s"}, short2 : {"", "n", "t", "s"},
-            p : BOOLEAN, out : {"", "P", "o", "Pbad"}, pre : {"none", "long", "short"}, c : {0, 2, 5, 8, 16, 100}, b : {0, 3, 8, 17}, r : BOOLEAN, src : {"stdin", "file"},
+            p : BOOLEAN, out : {"", "P", "o", "olong", "Pbad"}, pre : {"none", "long", "short"}, c : {0, 2, 5, 8, 16, 100}, b : {0, 3, 8, 17}, r : BOOLEAN, src : {"stdin", "file"},
             spell : {"short", "long", "long="} ] :      \* -p -P -c -b -r -o -n -t -s or their long spellings (--print --printfile X / --printfile=X ...)
-      /\ (f.pre # "none" => f.out \in {"P", "o"})        \* pre: the output file exists already and is longer / shorter than the new code
+      /\ (f.pre # "none" => f.out \in {"P", "o", "olong"})        \* pre: the output file exists already and is longer / shorter than the new code
       /\ (f.short # "" => f.mov = "" /\ f.sib = "" /\ f.swap = "" /\ f.nobase = "")
       /\ (f.short2 # "" => f.short # "")                 \* two short mode flags: applied in command-line order, the last one wins per dimension
       /\ (f.sib # "" => f.swap = "" /\ f.nobase = "") }
@@ -43,11 +43,11 @@ Flat(rows, j) == IF j > Len(rows) THEN <<>> ELSE rows[j] \o Flat(rows, j + 1)
 Why(e) ==
   LET f == e.f  okasm == e.lib.ret = 0
       wantout == f.out # ""
-      outok == f.out \in {"", "P", "o"}
+      outok == f.out \in {"", "P", "o", "olong"}
   IN IF okasm /\ outok /\ e.exit # 0 THEN "exit-nonzero-although-everything-succeeded"
      ELSE IF (~okasm \/ ~outok) /\ e.exit = 0 THEN "exit-zero-although-something-failed"
      ELSE IF ~okasm THEN ""
-     ELSE IF f.out \in {"P", "o"} /\ e.file # e.lib.bytes THEN "binary-output-differs-from-library"
+     ELSE IF f.out \in {"P", "o", "olong"} /\ e.file # e.lib.bytes THEN "binary-output-differs-from-library"
      ELSE IF f.p /\ Flat(e.rows, 1) # e.lib.bytes THEN "printed-hex-differs-from-library"
      ELSE IF f.p /\ f.c >= 2 /\ f.b = 0 /\ \E j \in 1..(Len(e.rows) - 1) : Len(e.rows[j]) # f.c THEN "chunk-rows"
      ELSE IF f.b >= 2 /\ e.count # e.lib.dest THEN "count-differs-from-library"
